@@ -8,9 +8,10 @@
    pseudo_selections, pseudo_expected, ...) are at the top of Proofs/HeaderCollectProofs.v and
    Proofs/HeaderWireProofs.v. *)
 From ReqV Require Import Lib.Bytes Model.HeaderOrder Model.HeaderCollect
-  Model.HeaderMerge
+  Model.HeaderMerge Model.HeaderSeq
   Proofs.HeaderOrderProofs Proofs.HeaderCollectProofs Proofs.HeaderWireProofs Proofs.HeaderSyncProofs
-  Proofs.HeaderMergeProofs Proofs.HeaderKeySortProofs Gen.HeaderSrc.
+  Proofs.HeaderMergeProofs Proofs.HeaderKeySortProofs Proofs.HeaderSeqProofs Gen.HeaderSrc.
+From Coq Require Import NArith.
 From Coq Require Import Permutation Sorting.Sorted.
 
 (* ===================== part 1: header.SortKeyValues ===================== *)
@@ -467,6 +468,92 @@ Theorem C16_api_h1_h3_cookies : forall rh ch p ps ro rp,
 Proof. exact api_h3_cookies. Qed.
 Print Assumptions C16_api_h1_h3_cookies.
 
+(* ===================== part 2c: nothing is carried from one exchange to the next ===================== *)
+(* Model/HeaderSeq.v.  HTTP/2: [enc]/[dec] are ANY header codec with connection state (HPACK and its
+   dynamic table) that is lossless while the decoder sees every block the encoder produced. *)
+
+(* for every sequence of requests on one connection - any mix of accepted ones and ones refused for
+   exceeding the peer's SETTINGS_MAX_HEADER_LIST_SIZE, any starting table - the peer decodes, block
+   by block, exactly the field lists of the accepted requests *)
+Theorem C16_h2_session_history_independent :
+  forall (T B : Type) (enc : T -> list line -> B * T) (dec : T -> B -> option (list line) * T),
+  (forall t ls, dec t (fst (enc t ls)) = (Some ls, snd (enc t ls))) ->
+  forall max qs t,
+  h2_session dec (h2_client_step enc) max t t qs =
+  map (fun q => Some (h2_lines q)) (filter (fun q => negb (h2_refused max q)) qs).
+Proof. exact (@h2_session_history_independent). Qed.
+Print Assumptions C16_h2_session_history_independent.
+
+Theorem C16_h2_refused_leaves_table :
+  forall (T B : Type) (enc : T -> list line -> B * T) max t q,
+  h2_refused max q = true -> h2_client_step enc max t q = (None, t).
+Proof. exact (@h2_refused_leaves_table). Qed.
+Print Assumptions C16_h2_refused_leaves_table.
+
+(* the hypothesis is satisfiable (a codec that numbers its blocks), and with the counting pass merged
+   into the encoding pass the request after a refused one is no longer decoded as itself *)
+Theorem C16_h2_merged_pass_refuted :
+  (forall t ls, num_dec t (fst (num_enc t ls)) = (Some ls, snd (num_enc t ls))) /\
+  let qs := [small_req (bs "1"); small_req (rep "B"%byte 400); small_req (bs "2")] in
+  h2_session num_dec (h2_client_step num_enc) (Some 300%N) 0 0 qs =
+    [Some (h2_lines (small_req (bs "1"))); Some (h2_lines (small_req (bs "2")))] /\
+  h2_session num_dec (h2_client_step_merged num_enc) (Some 300%N) 0 0 qs =
+    [Some (h2_lines (small_req (bs "1"))); None].
+Proof. exact (conj num_sync h2_merged_pass_refuted). Qed.
+Print Assumptions C16_h2_merged_pass_refuted.
+
+(* HTTP/1.1 without an order list: for every sequence of requests drawn through the sorter pool -
+   completed, or cut short by a connection fault after any number of lines - and every stale
+   content of the pooled sorter, what each request writes is a function of that request alone ... *)
+Theorem C16_h1_pool_session_independent : forall reqs stale,
+  h1_pool_session pooled_sorted stale reqs =
+  map (fun rc => cut_lines (snd rc) (h1_lines_pooled pooled_sorted [] (fst rc))) reqs.
+Proof. exact h1_pool_session_independent. Qed.
+Print Assumptions C16_h1_pool_session_independent.
+
+(* ... namely the h1_lines of the collector theorems *)
+Theorem C16_h1_lines_pooled_is_h1_lines : forall q,
+  is_nil (order_list (c_hdr q)) = true -> h1_lines_pooled pooled_sorted [] q = h1_lines q.
+Proof. exact h1_lines_pooled_is_h1_lines. Qed.
+Print Assumptions C16_h1_lines_pooled_is_h1_lines.
+
+(* taking the pooled slice as it is: the request after a failed one carries the failed one's headers *)
+Theorem C16_h1_pooled_stale_refuted :
+  let q1 := mk_creq (bs "GET") (bs "h") (bs "/") (bs "http") [(bs "Authorization", [bs "secret"]); (bs "X-A", [bs "1"])] 0%Z false in
+  let q2 := mk_creq (bs "GET") (bs "other") (bs "/") (bs "http") [(bs "X-B", [bs "2"])] 0%Z false in
+  nth 1 (h1_pool_session pooled_sorted [] [(q1, Some 2); (q2, None)]) [] = h1_lines q2 /\
+  In (bs "Authorization", bs "secret") (nth 1 (h1_pool_session pooled_sorted_stale [] [(q1, Some 2); (q2, None)]) []) /\
+  ~ In (bs "Authorization", bs "secret") (h1_lines q2).
+Proof. exact h1_pooled_stale_refuted. Qed.
+Print Assumptions C16_h1_pooled_stale_refuted.
+
+(* families of clients made with Clone(): for every later sequence of operations - clones of it,
+   clones of clones, registrations on any OTHER member - a member's registrations (header order,
+   pseudo-header order, other transport middleware) do not change *)
+Theorem C16_clone_later_ops_do_not_reach : forall ops2 s j,
+  j < length s -> forallb (fun o => negb (writes o j)) ops2 = true ->
+  nth j (fold_left fam_step ops2 s) [] = nth j s [].
+Proof. exact fam_later_ops_do_not_reach. Qed.
+Print Assumptions C16_clone_later_ops_do_not_reach.
+
+Theorem C16_clone_inherits_in_force : forall s w,
+  let regs := nth (length s) (fam_step s (FClone w)) [] in
+  in_force header_order_key (regs_order regs) = in_force header_order_key (regs_order (nth w s [])) /\
+  in_force pseudo_header_order_key (regs_porder regs) = in_force pseudo_header_order_key (regs_porder (nth w s [])).
+Proof. exact clone_inherits_in_force. Qed.
+Print Assumptions C16_clone_inherits_in_force.
+
+Theorem C16_clone_own_order_when_none_inherited : forall regs k,
+  regs_order regs = [] -> in_force header_order_key (regs_order (regs ++ [ROrder k])) = k.
+Proof. exact own_order_when_none_inherited. Qed.
+Print Assumptions C16_clone_own_order_when_none_inherited.
+
+Theorem C16_clone_inherited_order_stays : forall regs k,
+  regs_order regs <> [] ->
+  in_force header_order_key (regs_order (regs ++ [ROrder k])) = in_force header_order_key (regs_order regs).
+Proof. exact inherited_order_stays. Qed.
+Print Assumptions C16_clone_inherited_order_stays.
+
 (* ===================== part 3: the source the model transcribes ===================== *)
 (* Gen/HeaderSrc.v is regenerated from the working tree on every run; these statements pin the text
    of the small functions the model was written from and the names the collectors write. *)
@@ -497,6 +584,16 @@ Theorem C16_pseudo_default_order_from_source : forall q,
   map fst (pseudo_kvs q) = firstn 4 h2_writer_names /\ map fst (pseudo_kvs q) = firstn 4 h3_writer_names.
 Proof. exact pseudo_default_order_from_source. Qed.
 Print Assumptions C16_pseudo_default_order_from_source.
+
+Theorem C16_carried_state_go_as_modelled :
+  src_headerSortedKeyValues = bs "{ hs = headerSorterPool.Get().(*headerSorter) if cap(hs.kvs) < len(h) { hs.kvs = make([]header.KeyValues, 0, len(h)) } kvs = hs.kvs[:0] for k, vv := range h { if !exclude[k] { kvs = append(kvs, header.KeyValues{k, vv}) } } hs.kvs = kvs sort.Sort(hs) return kvs, hs }" /\
+  (h2_src_refuse_offset <? h2_src_encode_offset)%N = true /\
+  src_clone_wrappers = bs "cloneSlice(t.httpRoundTripWrappers)".
+Proof.
+  exact (conj header_sorted_key_values_go_as_modelled
+          (conj h2_counting_pass_precedes_encoding clone_copies_wrappers_go_as_modelled)).
+Qed.
+Print Assumptions C16_carried_state_go_as_modelled.
 
 Example C16_nonvacuous :
   let order := [bs "x-b"; bs "COOKIE"; bs "x-a"; bs "x-b"] in
